@@ -183,10 +183,14 @@ class Runner:
         from ofxtools.Client import StmtRq
         from ofxtools.utils import UTC
         mode = op["mode"] if dry is None else "dryrun"
-        kw = {"dryrun": mode == "dryrun"}
+        # the documented defaults (dryrun=False, skip_profile=False, persist_cookies=True) are part of what C14 promises
+        # ("a dry run performs no request; otherwise ..."): they are left to the code wherever the case asks for the default
+        # behaviour, so that a changed default shows up as a request that was not sent / went elsewhere / lost its cookies
+        kw = {"dryrun": True} if mode == "dryrun" else {}
         if op["kind"] == "profile":
             return client.request_profile(**kw)
-        kw["skip_profile"] = mode == "skip"
+        if mode == "skip":
+            kw["skip_profile"] = True
         if op["kind"] == "statements":
             return client.request_statements(op["pass"], StmtRq(acctid="1", accttype="CHECKING"), **kw)
         if op["kind"] == "accounts":
@@ -199,7 +203,8 @@ class Runner:
         F.wipe_profiles()
         self.case, self.script, self.base = case, case["script"], len(self.net.log)
         cls = [OFXClient(NAMES[c["url"]], userid=c["userid"], org=c["orgfid"][0], fid=c["orgfid"][1],
-                         useragent=c["useragent"], persist_cookies=c["persist"], bankid="123456789", brokerid="b.example")
+                         useragent=c["useragent"], bankid="123456789", brokerid="b.example",
+                         **({} if c["persist"] else {"persist_cookies": False}))
                for c in case["clients"]]
         obs, events, twins = [], [], []
         for op in case["hist"]:
